@@ -65,6 +65,11 @@ def run(ck):
     scripts.append(('E', ['ih', 'sp_bad', 'sp_ok', 'init', 'send', 'eos', 'drain', 'deinit', 'dh']))
     scripts.append(('E', ['ih', 'sp_bad', 'sp_bad2', 'sp_nullcfg', 'sp_bad', 'sp_ok', 'sp_ok', 'init', 'send', 'eos', 'drain', 'deinit', 'dh']))
     scripts.append(('E', NULL_E))
+    # polling after deinit (packets may still be queued): every call must return
+    scripts.append(('E', ['ih', 'sp_ok', 'init'] + ['send'] * 24 + ['deinit'] + ['get'] * 40 + ['dh']))
+    scripts.append(('E', ['ih', 'sp_ok', 'init'] + ['send'] * 24 + ['deinit'] + ['recon'] * 30 + ['get'] * 10 + ['dh']))
+    scripts.append(('E', ['ih', 'sp_ok', 'init', 'deinit', 'get', 'get', 'recon', 'hdr', 'dh']))
+    scripts.append(('E', ['ih', 'sp_ok', 'init'] + ['send'] * 10 + ['eos', 'wait', 'deinit'] + ['get'] * 30 + ['recon'] * 30 + ['dh']))   # everything encoded, nothing retrieved
     for pos in range(len(legal) + 1):           # every NULL call at every point of a legal session
         for op in NULL_E:
             if ck.tier == 'thorough' or rng.random() < 0.22:
@@ -105,7 +110,7 @@ def run(ck):
             mm = re.match(r'S (\d+)(.*) END (.*)$', l)
             if mm:
                 real[int(mm.group(1))] = (mm.group(2), mm.group(3))
-    rc2, out2 = sh(mbin, input=''.join(' '.join(ops) + '\n' for k, ops in scripts if k == 'E'), timeout=120)
+    rc2, out2 = sh(mbin, input=''.join(' '.join(o for o in ops if o != 'wait') + '\n' for k, ops in scripts if k == 'E'), timeout=120)
     lines2 = out2.strip().split('\n')
     verdicts = [l for l in lines2 if l.startswith('V ')]
     exp_lines = [l for l in lines2 if not l.startswith('V ')]
@@ -122,12 +127,13 @@ def run(ck):
     for i, (k, ops) in enumerate(scripts):
         ck.case(('script', k, tuple(o for o in ops if o.endswith(('_nullh', '_nullcfg', '_nullout', '_nullbuf', '_nullpp', '_null', '_nullp', '_nulldata_len')) or o.startswith('sp_bad'))))
         trace, end = real.get(i, ('', 'missing'))
-        rcs = re.findall(r' (\w+)=([0-9a-f]+)', trace)
+        rcs = [x for x in re.findall(r' (\w+)=([0-9a-f]+)', trace) if x[0] != 'wait']
         started = re.findall(r' >(\w+)', trace)
         exp = exp_lines[ei].split() if k == 'E' and ei < len(exp_lines) else None
         if k == 'E':
             ei += 1
         if end != 'ok':
+            started = [x for x in started if x != 'wait']
             op = started[len(rcs)] if len(started) > len(rcs) else '?'
             kind = 'blocks' if end == 'timeout' else 'crashes'
             ck.violation('api_%s:%s:%s' % (kind, 'enc' if k == 'E' else 'dec', op), 'API call %s %s (%s) in the %s script: %s' % (op, 'does not return' if end == 'timeout' else 'crashes the process', end, 'encoder' if k == 'E' else 'decoder', ' '.join(ops)),
